@@ -483,8 +483,14 @@ class STensor:
         key[axis] = indices
         return self[tuple(key)]
 
-    def sum(self, axis=None):
-        return np_sum(self, axis=axis)
+    def sum(self, axis=None, keepdims=False, dtype=None, out=None):
+        return np_sum(self, axis=axis, keepdims=keepdims, out=out)
+
+    def __matmul__(self, other):
+        raise OutOfReach("matrix product is not modelled by the facade")
+
+    def __rmatmul__(self, other):
+        raise OutOfReach("matrix product is not modelled by the facade")
 
     # -- indexing
     def __getitem__(self, key):
@@ -1274,10 +1280,16 @@ def isnan(a):
     return sbool(to_f(a).u)
 
 
-def nan_to_num(a):
+def nan_to_num(a, copy=True, nan=0.0, posinf=None, neginf=None):
+    if copy is not True:
+        raise OutOfReach("nan_to_num(copy=False) writes in place")
+    if posinf is not None or neginf is not None:
+        raise OutOfReach("nan_to_num with posinf / neginf (NaN and Inf are one flag in this model)")
+    fill = zr(_rawsc(nan)) if not isinstance(nan, (int, float)) else nan
+
     def f(x, _):
         x = to_f(x)
-        return SFloat(False, r_ite(x.u, 0, x.v))
+        return SFloat(False, r_ite(x.u, fill, x.v))
 
     if isinstance(a, STensor):
         return elementwise(f, a, 0, kind="f")
@@ -1822,7 +1834,9 @@ def _norm_axes(axis, ndim):
     return sorted(axes)
 
 
-def np_sum(a, axis=None, nan_skip=False):
+def np_sum(a, axis=None, nan_skip=False, keepdims=False, dtype=None, out=None):
+    if out is not None:
+        raise OutOfReach("sum with out=")
     t = _as_tensor_or_scalar(a)
     if t is None:
         return wrap_scalar(_rawsc(a))
@@ -1832,13 +1846,29 @@ def np_sum(a, axis=None, nan_skip=False):
     r = t
     for ax in reversed(axes):
         r = _reduce_axis(r, ax, nan_skip)
+    if keepdims:
+        # the reduced axes come back as unit axes
+        key = [None if d in axes else slice(None) for d in range(t.ndim)]
+        if r.ndim == 0:
+            r = STensor((), r._elem, r.kind) if isinstance(r, STensor) else r
+            return STensor((1,) * t.ndim, lambda *idx: r._elem(), r.kind)
+        return r[tuple(key)]
     if r.ndim == 0 and (axis is None or len(axes) == t.ndim):
         return wrap_scalar(r._elem())
     return r
 
 
-def nansum(a, axis=None):
-    return np_sum(a, axis=axis, nan_skip=True)
+def nansum(a, axis=None, keepdims=False, dtype=None, out=None):
+    return np_sum(a, axis=axis, nan_skip=True, keepdims=keepdims, out=out)
+
+
+def transpose(a, axes=None):
+    t = _as_tensor_or_scalar(a)
+    if t is None:
+        return a
+    if axes is not None and tuple(axes) != tuple(range(t.ndim))[::-1]:
+        raise OutOfReach("transpose with axes")
+    return t.T
 
 
 def prod(a):
@@ -2427,17 +2457,31 @@ def facade():
     g = globals()
     ns = _Facade()
     skip = {"math", "Fraction", "z3", "core", "sg", "ctx"}
+    def guard(name, fn):
+        # a call signature this model does not provide (e.g. an unmodelled keyword) is out of
+        # reach, not a TypeError of the code under verification
+        def g_(*a, **kw):
+            try:
+                return fn(*a, **kw)
+            except TypeError as e:
+                if "unexpected keyword argument" in str(e) or "positional argument" in str(e):
+                    raise OutOfReach("numpy.%s: call form not modelled (%s)" % (name, e))
+                raise
+
+        g_.__name__ = getattr(fn, "__name__", name)
+        return g_
+
     for k, v in g.items():
         if k.startswith("_") or k in skip:
             continue
-        setattr(ns, k, v)
-    ns.sum = np_sum
-    ns.all = np_all
-    ns.any = np_any
-    ns.min = np_min
-    ns.max = np_max
-    ns.abs = abs_
-    ns.absolute = abs_
+        setattr(ns, k, guard(k, v) if isinstance(v, types.FunctionType) else v)
+    ns.sum = guard("sum", np_sum)
+    ns.all = guard("all", np_all)
+    ns.any = guard("any", np_any)
+    ns.min = guard("min", np_min)
+    ns.max = guard("max", np_max)
+    ns.abs = guard("abs", abs_)
+    ns.absolute = guard("absolute", abs_)
     ns.ndarray = STensor
     ns.isscalar = lambda x: not isinstance(x, (STensor, list, tuple, SSeq))
     return ns
